@@ -419,7 +419,10 @@ func readRecord(r io.Reader, buf []byte) (OpCode, []byte, error) {
 	opcode := OpCode(buf[0])
 	recordLen := binary.LittleEndian.Uint64(buf[1:])
 	if uint64(cap(buf)) < recordLen {
-		buf = make([]byte, recordLen)
+		buf, err = makeSafe(recordLen)
+		if err != nil {
+			return 0, nil, fmt.Errorf("failed to allocate %d bytes for record: %w", recordLen, err)
+		}
 	} else {
 		buf = buf[:recordLen]
 	}
